@@ -449,6 +449,14 @@ func (a *AggregationProcess) addOrUpdateRecordInMap(flowKey *FlowKey, record ent
 func (a *AggregationProcess) correlateRecords(incomingRecord, existingRecord entities.Record) error {
 	for _, field := range a.correlateFields {
 		if ieWithValue, _, exist := incomingRecord.GetInfoElementWithValue(field); exist {
+			if _, _, existInExisting := existingRecord.GetInfoElementWithValue(field); !existInExisting {
+				// The record stored for the flow has no such field (the other node uses a
+				// different template): take the field over from the incoming record.
+				if err := existingRecord.AddInfoElement(ieWithValue); err != nil {
+					return err
+				}
+				continue
+			}
 			switch ieWithValue.GetDataType() {
 			case entities.String:
 				val := ieWithValue.GetStringValue()
